@@ -56,8 +56,11 @@ type Step struct {
 	// Cwd (run steps): the working directory of the process while spok runs — one of three scratch
 	// directories beside the project. Where spok is started from has no bearing on the project's cache.
 	Cwd     int            `json:"cwd,omitempty"`
-	Op      string         `json:"op"` // write revert delete run rmcache
+	Op      string         `json:"op"` // write revert delete swap run rmcache
 	File    string         `json:"file,omitempty"`
+	// File2 (swap): the two names exchange what they refer to (mv a tmp; mv b a; mv tmp b) - two regular
+	// files, or two symbolic links that thereby exchange their targets
+	File2 string `json:"file2,omitempty"`
 	Content string         `json:"content,omitempty"`
 	Tasks   []string       `json:"tasks,omitempty"`
 	Force   bool           `json:"force,omitempty"`
@@ -294,6 +297,10 @@ func execCache(id string, s *ev.Shard, root string, c CacheCase) *rp.Fail {
 			cur[name] = fileState{exists: true, content: linkMarker + target}
 		}
 	}
+	links := map[string]string{} // as they are now (a swap exchanges targets)
+	for name, target := range c.Links {
+		links[name] = target
+	}
 	src := c.Source()
 	specs := map[string]TaskSpec{}
 	for _, t := range c.Tasks {
@@ -358,6 +365,28 @@ func execCache(id string, s *ev.Shard, root string, c CacheCase) *rp.Fail {
 				return &rp.Fail{Sig: "harness", Msg: err.Error()}
 			}
 			fileActSinceRun = true
+		case "swap":
+			a, b2 := st.File, st.File2
+			ta, aLink := links[a]
+			tb, bLink := links[b2]
+			ca, cb := cur[a], cur[b2]
+			switch {
+			case aLink && bLink:
+				links[a], links[b2] = tb, ta
+			case !aLink && !bLink && ca.exists && cb.exists && !strings.HasPrefix(ca.content, linkMarker) && !strings.HasPrefix(cb.content, linkMarker) && filepath.Dir(a) == filepath.Dir(b2):
+				prev[a], prev[b2] = ca, cb
+				cur[a], cur[b2] = cb, ca
+			default:
+				continue // not a pair this step applies to
+			}
+			pa, pb := filepath.Join(root, filepath.FromSlash(a)), filepath.Join(root, filepath.FromSlash(b2))
+			tmp := pa + ".swapping"
+			for _, mv := range [][2]string{{pa, tmp}, {pb, pa}, {tmp, pb}} {
+				if err := os.Rename(mv[0], mv[1]); err != nil {
+					return &rp.Fail{Sig: "harness", Msg: err.Error()}
+				}
+			}
+			fileActSinceRun = true
 		case "rmcache":
 			if st.Whole {
 				_ = os.RemoveAll(filepath.Join(root, ".spok"))
@@ -395,7 +424,7 @@ func execCache(id string, s *ev.Shard, root string, c CacheCase) *rp.Fail {
 				for _, w := range sp.Writes {
 					// the file itself and every link that leads to it
 					written := []string{w.File}
-					for ln, target := range c.Links {
+					for ln, target := range links {
 						if target == w.File {
 							written = append(written, ln)
 						} else if strings.HasPrefix(w.File, target+"/") {
